@@ -201,6 +201,17 @@ def argopt_final_pick(fn: ast.FunctionDef):
     return None
 
 
+def reordered_points(v: ast.expr) -> Optional[str]:
+    """v is  [p for _, p in sorted(zip(<keys>, POINTS), ...)]  - the list POINTS (a name) reordered, nothing dropped: -> POINTS"""
+    good = (isinstance(v, ast.ListComp) and len(v.generators) == 1 and not v.generators[0].ifs and isinstance(v.elt, ast.Name)
+            and isinstance(v.generators[0].target, ast.Tuple) and len(v.generators[0].target.elts) == 2
+            and isinstance(v.generators[0].target.elts[1], ast.Name) and v.generators[0].target.elts[1].id == v.elt.id
+            and isinstance(v.generators[0].iter, ast.Call) and attr_chain(v.generators[0].iter.func) == "sorted" and v.generators[0].iter.args
+            and isinstance(v.generators[0].iter.args[0], ast.Call) and attr_chain(v.generators[0].iter.args[0].func) == "zip" and len(v.generators[0].iter.args[0].args) == 2
+            and isinstance(v.generators[0].iter.args[0].args[1], ast.Name))
+    return v.generators[0].iter.args[0].args[1].id if good else None
+
+
 def permutation_helpers(prog: Program, fi) -> dict:
     """the functions - nested in `fi` or at module level of its module, under whatever name - that return their points argument
     reordered:  [p for _, p in sorted(zip(<keys>, <points parameter>), ...)]  on every return.
@@ -219,16 +230,11 @@ def permutation_helpers(prog: Program, fi) -> dict:
         ok = bool(rets)
         for r in rets:
             v = r.value
-            good = (isinstance(v, ast.ListComp) and len(v.generators) == 1 and not v.generators[0].ifs and isinstance(v.elt, ast.Name)
-                    and isinstance(v.generators[0].target, ast.Tuple) and len(v.generators[0].target.elts) == 2
-                    and isinstance(v.generators[0].target.elts[1], ast.Name) and v.generators[0].target.elts[1].id == v.elt.id
-                    and isinstance(v.generators[0].iter, ast.Call) and attr_chain(v.generators[0].iter.func) == "sorted" and v.generators[0].iter.args
-                    and isinstance(v.generators[0].iter.args[0], ast.Call) and attr_chain(v.generators[0].iter.args[0].func) == "zip" and len(v.generators[0].iter.args[0].args) == 2
-                    and isinstance(v.generators[0].iter.args[0].args[1], ast.Name) and v.generators[0].iter.args[0].args[1].id in params)
-            if not good:
+            pts = reordered_points(v)
+            if pts is None or pts not in params:
                 ok = False
                 break
-            k = params.index(v.generators[0].iter.args[0].args[1].id)
+            k = params.index(pts)
             if idx is not None and idx != k:
                 ok = False
                 break
@@ -466,6 +472,26 @@ def sweep_start_is_feasible_end(prog: Program, fi) -> tuple:
         if prog.has_func(q):
             ps = prog.func(q).params()
             gens[name] = next((i for i, p_ in enumerate(ps) if p_ in ("space_start", "spacing", "target_spacing")), None)
+    # a local that holds a generator chosen earlier ( gen = field_optimization_fr / gen = partial(field_optimization_wp_space_fr, ratio) ):
+    # calling it is calling the generator, the spacing standing as many positions earlier as the partial binds - provided
+    # every binding of that local agrees on the position
+    held = {}
+    for s in ast.walk(fn):
+        if isinstance(s, ast.Assign) and len(s.targets) == 1 and isinstance(s.targets[0], ast.Name):
+            v = s.value
+            pos = None
+            if isinstance(v, ast.Name) and v.id in gens and gens[v.id] is not None:
+                pos = gens[v.id]
+            elif isinstance(v, ast.Call) and attr_chain(v.func) in ("partial", "functools.partial") and v.args and isinstance(v.args[0], ast.Name) \
+                    and v.args[0].id in gens and gens[v.args[0].id] is not None and not any(isinstance(a, ast.Starred) for a in v.args) \
+                    and not any(k.arg in ("space_start", "spacing", "target_spacing") or k.arg is None for k in v.keywords):
+                pos = gens[v.args[0].id] - (len(v.args) - 1)
+                if pos < 0:
+                    pos = None
+            held.setdefault(s.targets[0].id, set()).add(pos)
+    for name, poss in held.items():
+        if name not in gens and len(poss) == 1 and None not in poss:
+            gens[name] = next(iter(poss))
     field_spacing = {}   # field local -> set of spacing expressions (text) it was generated with
     excess_of = {}       # excess local -> field local
     for s in ast.walk(fn):
